@@ -915,6 +915,7 @@ impl<'a> Gen<'a> {
                 let step = 1 + self.rng.range(0, 2);
                 let (from, to, by) = if down { (a + n, a, Some(-step)) } else { (a, a + n, if step == 1 && self.rng.bool() { None } else { Some(step) }) };
                 // bounds may be expressions over variables that the body changes (evaluated once!)
+                let mut pre_assign: Option<i64> = None;
                 let to_e = if self.rng.chance(1, 4) {
                     let c: Vec<String> = self.vars_of(vty).iter().filter(|v| !v.0.starts_with("k_")).map(|v| v.0.clone()).collect();
                     if let Some(nm) = c.first() {
@@ -924,6 +925,12 @@ impl<'a> Gen<'a> {
                     } else {
                         Expr::Lit(vty, Sv::I(to as i128))
                     }
+                } else if self.rng.chance(1, 6) && !self.features.contains("for-to-type-limit") && a.abs() < 100 {
+                    // the end value reads the control variable itself: it is evaluated with the value the variable has before the loop
+                    // (set to `pre` right before the FOR), not with the initial value of this loop
+                    self.features.insert("for-bound-reads-control".into());
+                    pre_assign = Some(1 + self.rng.range(0, 2));
+                    Expr::Bin(BinOp::Add, Box::new(Expr::Lit(vty, Sv::I((to - pre_assign.unwrap()) as i128))), Box::new(Expr::Var(var.clone(), vty)), vty)
                 } else {
                     Expr::Lit(vty, Sv::I(to as i128))
                 };
@@ -935,7 +942,11 @@ impl<'a> Gen<'a> {
                 self.steps = before + (inner + 2) * (n as u64 + 2);
                 self.in_loop -= 1;
                 self.protected.pop();
-                Stmt::For { var, vty, from: Expr::Lit(vty, Sv::I(from as i128)), to: to_e, by: by.map(|b| Expr::Lit(vty, Sv::I(b as i128))), body, reset: true }
+                let f = Stmt::For { var: var.clone(), vty, from: Expr::Lit(vty, Sv::I(from as i128)), to: to_e, by: by.map(|b| Expr::Lit(vty, Sv::I(b as i128))), body, reset: true };
+                match pre_assign {
+                    Some(c) => Stmt::If(Expr::Lit(Bool, Sv::I(1)), vec![Stmt::Assign(Lv::Var(var, vty), Expr::Lit(vty, Sv::I(c as i128))), f], vec![], vec![]),
+                    None => f,
+                }
             }
             11 if self.guards < if self.in_pou { 6 } else { 16 } => {
                 let guard = format!("g_{}", self.guards);
